@@ -38,6 +38,7 @@ class Path:
     self.abstracted = 0      # number of havocs from un-contracted/opaque calls
     self.notes = []
     self.witness_terms = {}
+    self.assumed = []        # facts assumed (requires, callee ensures, type facts), not branch decisions
 
   def fresh_name(self, base):
     self.counter += 1
@@ -53,6 +54,7 @@ class Path:
     if z3.is_false(b):
       raise PathEnd()
     self.pc.append(b)
+    self.assumed.append(b)
 
 
 class Explorer:
@@ -210,30 +212,39 @@ def _has_quantifier(e):
 def discharge(obl, timeout_ms=20000, want_model=True):
   """Proves pc => goal by refuting pc /\\ not goal."""
   t0 = time.time()
-  s = z3.Solver()
-  s.set('timeout', timeout_ms)
   goal, consts = _skolemize(obl.goal)
-  for c in obl.pc:
-    s.add(c)
-  for c in _instances(obl.pc, consts):
-    s.add(c)
-  s.add(z3.Not(goal))
-  r = s.check()
+  hyps = list(obl.pc) + _instances(obl.pc, consts)
+
+  def z3_default(ms):
+    s = z3.Solver()
+    s.set('timeout', ms)
+    for c in hyps:
+      s.add(c)
+    s.add(z3.Not(goal))
+    return s, s.check()
+
+  # stage 1: default solver, short budget (linear / easy goals finish in milliseconds)
+  s, r = z3_default(min(3000, timeout_ms))
   obl.backend = 'z3'
   if r == z3.unknown:
-    # second attempt: different tactic pipeline (non-linear arithmetic)
+    # stage 2: non-linear real arithmetic (nlsat) on the quantifier-free problem
     try:
       g = z3.Goal()
-      for c in obl.pc:
-        g.add(c)
-      g.add(z3.Not(obl.goal))
-      t = z3.TryFor(z3.Then('simplify', 'propagate-values', 'qfnra-nlsat'), timeout_ms)
+      for c in hyps:
+        if not _has_quantifier(c):
+          g.add(c)
+      g.add(z3.Not(goal))
+      t = z3.TryFor(z3.Then('simplify', 'propagate-values', 'purify-arith', 'qfnra-nlsat'), timeout_ms)
       res = t(g)
       if len(res) == 1 and res[0].inconsistent():
         r = z3.unsat
         obl.backend = 'z3-nlsat'
     except z3.Z3Exception:
       pass
+  if r == z3.unknown and timeout_ms > 3000:
+    # stage 3: default solver with the full budget
+    s, r = z3_default(timeout_ms)
+    obl.backend = 'z3'
   if r == z3.unknown:
     r2 = _cvc5(s, timeout_ms)
     if r2 is not None:
